@@ -91,8 +91,17 @@ def static_url(i):
     return "http://st%d.test" % i
 
 
-def inst_url(i):
-    return "http://in%d.test:8080" % i
+def inst_url(x):
+    """URL of a discovery instance: dict {id, port?, scheme?, addr?} or a bare id."""
+    if isinstance(x, int):
+        x = {"id": x}
+    return "%s://%s:%d" % (x.get("scheme") or "http", x.get("addr") or ("in%d.test" % x["id"]), x.get("port") or 8080)
+
+
+def static_urls(i):
+    """configured URLs of the static servers of a pool input"""
+    urls = i.get("urls") or []
+    return [(urls[k] if k < len(urls) and urls[k] else static_url(k)) for k in range(len(i.get("static") or []))]
 
 
 def _srvlist(xs):
@@ -117,7 +126,7 @@ def encode(c):
         if o["valid"]:
             for op, out in zip(inops, outs):
                 if op.get("use") is not None:
-                    insts = L([Rec(i_url=S(inst_url(x["id"])), i_tags=L([S(t) for t in x.get("tags") or []]), i_w=Z(x["w"]))
+                    insts = L([Rec(i_url=S(inst_url(x)), i_tags=L([S(t) for t in x.get("tags") or []]), i_w=Z(x["w"]))
                                for x in op["use"]])
                     ops.append(C("OUse", insts, _srvlist(out.get("list"))))
                 else:
@@ -127,7 +136,7 @@ def encode(c):
             if len(outs) != len(inops):
                 ops.append(C("OReq", S(""), S(""), S(""), Z(0), Z(-7), S("missing"), S("")))
         return Rec(p_policy=S(i["policy"]), p_hkey=S(i["hkey"]), p_tags=L([S(t) for t in i.get("tags") or []]),
-                   p_static=L([T(S(static_url(k)), Z(w)) for k, w in enumerate(i.get("static") or [])]),
+                   p_static=L([T(S(u), Z(w)) for u, w in zip(static_urls(i), i.get("static") or [])]),
                    p_svc=B(i["svc"]), p_valid=B(o["valid"]), p_init=_srvlist(o.get("init")), p_ops=L(ops))
     if g == "rrc":
         return Rec(c_n=Z(i["n"]), c_g=Z(i["g"]), c_per=Z(i["per"]), c_c0=Z(i["c0"]),
@@ -186,7 +195,7 @@ def encode(c):
 
 
 def _insts(xs):
-    return L([Rec(i_url=S(inst_url(x["id"])), i_tags=L([S(t) for t in x.get("tags") or []]), i_w=Z(x["w"])) for x in xs or []])
+    return L([Rec(i_url=S(inst_url(x)), i_tags=L([S(t) for t in x.get("tags") or []]), i_w=Z(x["w"])) for x in xs or []])
 
 
 def distribution(cases):
